@@ -37,14 +37,15 @@ int main() {
         unsigned p = 0; uint32_t v = 0;
         if (o.size() > 1) { size_t c = o.find(':'); p = (unsigned)tounum(o.substr(1, c == std::string::npos ? std::string::npos : c - 1)); if (c != std::string::npos) v = (uint32_t)tounum(o.substr(c + 1)); }
         switch (o[0]) {
-          case 'a': out += r->add(v, (uint8_t)p) ? "1 " : "0 "; break;
-          case 'A': { uint32_t *q = r->getAddRef((uint8_t)p); if (q) { *q = v; out += "1 "; } else out += "0 "; break; }
+          // an argument equal to the documented default is left out (priority 0 for the adds, 0xff = whole buffer for isEmpty): the header's defaults are compared too
+          case 'a': out += (p == 0 ? r->add(v) : r->add(v, (uint8_t)p)) ? "1 " : "0 "; break;
+          case 'A': { uint32_t *q = (p == 0 ? r->getAddRef() : r->getAddRef((uint8_t)p)); if (q) { *q = v; out += "1 "; } else out += "0 "; break; }
           case 'r': { uint32_t x; if (r->read(x)) { snprintf(b, 64, "%u ", x); out += b; } else out += "- "; break; }
           case 'R': { uint8_t pr = 77; const uint32_t *q = r->getReadRef(&pr); if (q) { snprintf(b, 64, "%u:%u ", *q, (unsigned)pr); out += b; } else out += "- "; break; }
           case 'q': { const uint32_t *q = r->getReadRef((uint8_t)p); if (q) { snprintf(b, 64, "%u ", *q); out += b; } else out += "- "; break; }
           case 'c': r->clear(); out += ". "; break;
           case 'n': snprintf(b, 64, "%u ", (unsigned)r->count()); out += b; break;
-          case 'e': out += r->isEmpty((uint8_t)p) ? "1 " : "0 "; break;
+          case 'e': out += (p == 0xff ? r->isEmpty() : r->isEmpty((uint8_t)p)) ? "1 " : "0 "; break;
           default: out += "? ";
         }
       }
